@@ -252,6 +252,23 @@ def direct_reads(f):
     return out
 
 
+# non-const members that can only enlarge the set (or map it one to one): a non-empty object stays non-empty
+NE_PRESERVING = ("add_generator", "add_generators", "add_recycled_generators", "add_grid_generator", "add_grid_generators",
+                 "add_recycled_grid_generators", "affine_image", "affine_preimage_of_nonempty_dummy", "unconstrain",
+                 "add_space_dimensions_and_embed", "add_space_dimensions_and_project", "topological_closure_assign",
+                 "poly_hull_assign", "upper_bound_assign", "time_elapse_assign", "expand_space_dimension")
+
+
+def _result_ignored(f, call):
+    p = f.parent.get(call["i"])
+    while p is not None and p["k"] in ("cast", "paren"):
+        if p["k"] == "cast" and "void" in p.get("t", ""):
+            return True
+        p = f.parent.get(p["i"])
+    return p is None or p["k"] in ("block", "case", "default", "for", "while", "do", "try") or \
+        (p["k"] == "if" and f.deref(p["c"][2]) is not call and not f.within(call, f.deref(p["c"][2])))
+
+
 def discharge(ctx, rid, exceptions=None, judged_atoms=("PG", "PC", "CU", "GU", "NE"), direct=False, only_callees=None):
     exceptions = exceptions or {}
     req = mine(ctx)
@@ -315,6 +332,8 @@ def discharge(ctx, rid, exceptions=None, judged_atoms=("PG", "PC", "CU", "GU", "
             return {k: v for k, v in env.items() if k[0] != o}
 
         def state_of(env, o):
+            if env.get((o, "ME?")):
+                return {}
             return {k[1]: v for k, v in env.items() if k[0] == o}
 
         rfail = {}
@@ -335,12 +354,20 @@ def discharge(ctx, rid, exceptions=None, judged_atoms=("PG", "PC", "CU", "GU", "
                     o = obj_key(f, f.call_obj(x))
                     nm = f.call_name(x)
                     if o is not None:
-                        if nm in EFFECT:
+                        if nm in EFFECT and nm in EMPTY_IF_FALSE and _result_ignored(f, x) and not entails(state_of(env, o), "NE", True):
+                            # the `false' answer (object found and marked empty) is not looked at: the effect
+                            # holds only once a later marked_empty() / is_empty() test has excluded that case
+                            env = apply(env, o, EFFECT[nm])
+                            env[(o, "ME?")] = True
+                        elif nm in EFFECT:
                             env = apply(env, o, EFFECT[nm])
                         elif (nm, len(f.call_args(x))) in req:
                             pass        # an asserted worker: its own effect on the lazy facts is not modelled; keep what is known only if const
                         if nm not in EFFECT and not x.get("cconst") and nm not in KEEPS_RECEIVER_UNLESS_COMMITTED:
+                            ne = nm in NE_PRESERVING and entails(state_of(env, o), "NE", True)
                             env = forget(env, o)
+                            if ne:
+                                env[(o, "NE")] = True
                 # objects handed over by non-const reference lose their facts
                 pm = x.get("pm", "")
                 for a_, m in zip(f.call_args(x), pm):
@@ -414,9 +441,14 @@ def discharge(ctx, rid, exceptions=None, judged_atoms=("PG", "PC", "CU", "GU", "
                 env[(o, "NE")] = True
             elif nm in ("marked_empty", "is_empty") and truth:
                 return None
+            elif nm == "marked_empty" and not truth:
+                if env.get((o, "ME?")):
+                    env = dict(env)
+                    del env[(o, "ME?")]
             elif nm == "is_empty" and not truth:
                 env = dict(env)
                 env[(o, "NE")] = True
+                env.pop((o, "ME?"), None)
             return env
         ex = flow.Explorer(f, elem_effect=elem_effect, edge_effect=edge_effect)
         p = ex.find_path("ENTRY", lambda x: False, "EXIT", exit_ok=lambda env: True, start_env=start, max_states=400000)
